@@ -70,6 +70,10 @@ structure Fn where
 /-- how a statement ended; `exc c`: `c` = catchable by the `except` clauses of the mini-language -/
 inductive Out where
   | norm | exc (c : Bool) | ret | brk | cont
+  /-- "error exit without exception set": a bare `raise StopIteration` outside `try` in `__next__` of an extension
+  type sets `__pyx_error_without_exception` and jumps to the error label; the function returns NULL with no
+  exception and the caller (for-loop, list(), next(it, default), unpacking) ends the iteration or synthesises one -/
+  | stop
   deriving DecidableEq, Repr
 
 inductive Stmt where
@@ -78,6 +82,7 @@ inductive Stmt where
   | fail (ln : Nat) (c : Bool)              -- raises
   | ret (ln : Nat)                          -- `return v`
   | retPar (ln : Nat)                       -- `return v` inside prange / parallel
+  | stopNoExc (ln : Nat)                    -- bare `raise StopIteration` in `__next__`: error exit without exception
   | brk (ln : Nat)
   | cont (ln : Nat)
   | call (ln : Nat) (f : Fn) (body : Stmt)  -- call of another traced compiled function (its body unrolled)
@@ -124,6 +129,12 @@ def finish (cfg : Cfg) (c : Fn) (o : Out) : List Ev × Option Bool :=
       (if cfg.fixCpdef then evClose cfg c .unwind else evClose cfg c .unwind ++ evClose cfg c .unwind, some k)
     | .swallow => (evClose cfg c .unwind, none)
     | _ => (evClose cfg c .unwind, some k)
+  | .stop =>   -- the error label reports the exit whether or not an exception is set (same call site)
+    match c.fk with
+    | .cpdefPy =>
+      (if cfg.fixCpdef then evClose cfg c .unwind else evClose cfg c .unwind ++ evClose cfg c .unwind, some false)
+    | .swallow => (evClose cfg c .unwind, none)      -- the consumer ends the iteration
+    | _ => (evClose cfg c .unwind, some false)       -- `next(it)`: the caller synthesises StopIteration
   | _ => (evClose cfg c .ret ++ wrapRet cfg c, none)
 
 /-- `exec cfg c s` = (events emitted while running `s` inside function `c`, how `s` ended) -/
@@ -133,6 +144,7 @@ def exec (cfg : Cfg) (c : Fn) : Stmt → List Ev × Out
   | .fail ln k => (evLine cfg c ln, .exc k)
   | .ret ln => (evLine cfg c ln ++ evRetStmt cfg c, .ret)
   | .retPar ln => (evLine cfg c ln, .ret)
+  | .stopNoExc ln => (evLine cfg c ln, .stop)
   | .brk ln => (evLine cfg c ln, .brk)
   | .cont ln => (evLine cfg c ln, .cont)
   | .call ln f body =>
